@@ -16,6 +16,7 @@ import (
 	"github.com/fatedier/frp/pkg/msg"
 	"github.com/fatedier/frp/pkg/nathole"
 	"github.com/fatedier/frp/pkg/util/util"
+	"github.com/fatedier/frp/pkg/util/verifhook"
 	"verifharness/hx"
 )
 
@@ -110,6 +111,42 @@ func (s *sess) sync() bool {
 	}
 }
 
+// regGate holds the next RegisterProxy of the armed name between its Exist check and its Run
+// (gate point "ctl.regproxy.after_exist"), so that another session can register the name in between.
+type regGate struct {
+	mu      sync.Mutex
+	armed   string
+	blocked chan struct{}
+	release chan struct{}
+}
+
+func (gt *regGate) arm(name string) {
+	gt.mu.Lock()
+	gt.armed, gt.blocked, gt.release = name, make(chan struct{}), make(chan struct{})
+	gt.mu.Unlock()
+}
+
+func (gt *regGate) hook(point, key string) {
+	if point != "ctl.regproxy.after_exist" {
+		return
+	}
+	gt.mu.Lock()
+	if gt.armed == "" || gt.armed != key {
+		gt.mu.Unlock()
+		return
+	}
+	gt.armed = ""
+	b, r := gt.blocked, gt.release
+	gt.mu.Unlock()
+	close(b)
+	select {
+	case <-r:
+	case <-time.After(10 * time.Second):
+	}
+}
+
+var sysCaseNo int
+
 type sysReg struct {
 	owner    *sess
 	kind     string
@@ -177,6 +214,24 @@ func systemCase(g *gen, dist map[string]int) (string, []map[string]string, error
 		}
 	}
 	regs := map[string]*sysReg{}
+	sysCaseNo++
+	gate := &regGate{}
+	verifhook.Install(gate.hook)
+	defer verifhook.Install(nil)
+	forceName := "" // the next visitor request goes to this name, correctly signed, from an allowed user's session
+	regClass := func(e string) int64 {
+		switch {
+		case e == "":
+			return 0
+		case strings.Contains(e, "already exists"):
+			return 1
+		case strings.Contains(e, "repeated"):
+			return 2
+		case strings.Contains(e, "already in use"):
+			return 3
+		}
+		return 99
+	}
 	liveSess := func() []*sess {
 		var l []*sess
 		for _, s := range sessions {
@@ -206,7 +261,86 @@ func systemCase(g *gen, dist map[string]int) (string, []map[string]string, error
 		if i < 2 {
 			r = 0
 		}
+		race := i >= 2 && forceName == "" && ((sysCaseNo == 1 && i == 2) || g.Chance(0.05))
+		if forceName != "" {
+			r = 50
+			if reg := regs[forceName]; reg != nil && reg.kind == "xtcp" {
+				r = 90
+			}
+		}
+		if race {
+			r = 1000
+		}
 		switch {
+		case r == 1000: // two sessions register the same free name at the same time
+			var free []string
+			for _, nme := range namePool {
+				if _, taken := regs[nme]; !taken {
+					free = append(free, nme)
+				}
+			}
+			l := liveSess()
+			if len(free) == 0 || len(l) < 2 {
+				continue
+			}
+			name := free[g.Intn(len(free))]
+			a := l[g.Intn(len(l))]
+			b := a
+			for b == a {
+				b = l[g.Intn(len(l))]
+			}
+			kinds := []string{"stcp", "sudp", "xtcp"}
+			ka := kinds[g.Intn(3)]
+			kb := ka
+			if g.Chance(0.3) {
+				kb = kinds[g.Intn(3)]
+			}
+			ska, skb := g.sk(), g.sk()
+			var allowA []string
+			if g.Chance(0.5) {
+				allowA = g.allow()
+			}
+			allowB := g.allow()
+			pue, puc := g.Chance(0.5), g.Chance(0.5)
+			// B passes its Exist check (the name is free) and is held before Run
+			gate.arm(name)
+			if err := b.p.Send(&msg.NewProxy{ProxyName: name, ProxyType: kb, Sk: skb, AllowUsers: allowB}); err != nil {
+				return "", nil, err
+			}
+			select {
+			case <-gate.blocked:
+			case <-time.After(3 * time.Second):
+				return "", nil, fmt.Errorf("race: the second registration did not reach the gate")
+			}
+			// A registers the name completely
+			if err := a.p.Send(&msg.NewProxy{ProxyName: name, ProxyType: ka, Sk: ska, AllowUsers: allowA, UseEncryption: pue, UseCompression: puc}); err != nil {
+				close(gate.release)
+				return "", nil, err
+			}
+			var ra, rb *msg.NewProxyResp
+			select {
+			case ra = <-a.proxyRes:
+			case <-time.After(3 * time.Second):
+				close(gate.release)
+				return "", nil, fmt.Errorf("race: no NewProxyResp for the first registration")
+			}
+			// now B runs: its Run (or its Add) meets the incumbent
+			close(gate.release)
+			select {
+			case rb = <-b.proxyRes:
+			case <-time.After(3 * time.Second):
+				return "", nil, fmt.Errorf("race: no NewProxyResp for the held registration")
+			}
+			za, zb := regClass(ra.Error), regClass(rb.Error)
+			if za == 0 {
+				regs[name] = &sysReg{a, ka, ska, allowA, pue, puc}
+				forceName = name
+			}
+			ops = append(ops, fmt.Sprintf("SRegister %s %s %s %s %s", hx.HxS(a.p.RunID), kindCoq(ka), hx.HxS(name), hx.HxS(ska), coqStrs(allowA)))
+			obs = append(obs, obsZ(za))
+			ops = append(ops, fmt.Sprintf("SRegisterLate %s %s %s %s %s", hx.HxS(b.p.RunID), kindCoq(kb), hx.HxS(name), hx.HxS(skb), coqStrs(allowB)))
+			obs = append(obs, obsZ(zb))
+			dist[fmt.Sprintf("sys-race:%s-vs-%s:%d:%d", ka, kb, za, zb)]++
 		case r < 18: // register
 			s := sessions[0]
 			if g.Chance(0.3) {
@@ -231,16 +365,9 @@ func systemCase(g *gen, dist map[string]int) (string, []map[string]string, error
 			case <-time.After(3 * time.Second):
 				return "", nil, fmt.Errorf("no NewProxyResp")
 			}
-			z := int64(0)
-			switch {
-			case resp.Error == "":
+			z := regClass(resp.Error)
+			if z == 0 {
 				regs[name] = &sysReg{s, kind, sk, allow, pue, puc}
-			case strings.Contains(resp.Error, "already exists"):
-				z = 1
-			case strings.Contains(resp.Error, "repeated"):
-				z = 2
-			default:
-				z = 99
 			}
 			ops = append(ops, fmt.Sprintf("SRegister %s %s %s %s %s", hx.HxS(s.p.RunID), kindCoq(kind), hx.HxS(name), hx.HxS(sk), coqStrs(allow)))
 			obs = append(obs, obsZ(z))
@@ -293,6 +420,10 @@ func systemCase(g *gen, dist map[string]int) (string, []map[string]string, error
 			dist["sys-logout"]++
 		case r < 70: // stream visitor connection
 			name := g.liveName(regNamesOf(regs, g.Chance(0.85), false))
+			forced := forceName != ""
+			if forced {
+				name, forceName = forceName, ""
+			}
 			reg := regs[name]
 			ts := g.ts()
 			ht.addTs(ts)
@@ -306,16 +437,23 @@ func systemCase(g *gen, dist map[string]int) (string, []map[string]string, error
 				}
 			}
 			sign, kind := g.sign(realSk, ts, 0.75)
+			if forced {
+				sign, kind = util.GetAuthKey(realSk, ts), "right"
+			}
 			// whose run id the message carries
 			rid, ridKind := "", "empty"
-			switch x := g.Intn(10); {
+			x := g.Intn(10)
+			if forced {
+				x = 9
+			}
+			switch {
 			case x < 2:
 			case x < 3:
 				rid, ridKind = "no-such-run-id", "unknown"
 			default:
 				var cand []*sess
 				for _, s := range liveSess() {
-					if g.Chance(0.5) || contains(allow, s.user) {
+					if (!forced && g.Chance(0.5)) || contains(allow, s.user) || (forced && contains(allow, "*")) {
 						cand = append(cand, s)
 					}
 				}
@@ -350,6 +488,11 @@ func systemCase(g *gen, dist map[string]int) (string, []map[string]string, error
 			obs = append(obs, obsZ(z))
 			dist[fmt.Sprintf("sys-visitor:%d:rid=%s", z, ridKind)]++
 			dist["sign:"+kind]++
+			if forced && z != 0 {
+				fail("system:incumbent-unreachable-after-refused-duplicate",
+					"after a second session's registration of the same name was refused (registration race), a correctly signed visitor of an allowed user is refused by the live proxy",
+					fmt.Sprintf("%s resp=%q", opText, resp.Error))
+			}
 			// what do the owners see?
 			wait := negWait
 			if z == 0 {
@@ -404,6 +547,10 @@ func systemCase(g *gen, dist map[string]int) (string, []map[string]string, error
 			obs = append(obs, acc)
 		default: // NAT-hole visitor message on a session's control channel
 			name := g.liveName(regNamesOf(regs, g.Chance(0.85), true))
+			forced := forceName != ""
+			if forced {
+				name, forceName = forceName, ""
+			}
 			reg := regs[name]
 			ts := g.ts()
 			ht.addTs(ts)
@@ -417,9 +564,12 @@ func systemCase(g *gen, dist map[string]int) (string, []map[string]string, error
 				}
 			}
 			sign, kind := g.sign(realSk, ts, 0.75)
+			if forced {
+				sign, kind = util.GetAuthKey(realSk, ts), "right"
+			}
 			var cand []*sess
 			for _, s := range liveSess() {
-				if g.Chance(0.4) || contains(allow, s.user) {
+				if (!forced && g.Chance(0.4)) || contains(allow, s.user) || (forced && contains(allow, "*")) {
 					cand = append(cand, s)
 				}
 			}
@@ -427,7 +577,7 @@ func systemCase(g *gen, dist map[string]int) (string, []map[string]string, error
 				cand = liveSess()
 			}
 			vs := cand[g.Intn(len(cand))]
-			pre := g.Chance(0.35)
+			pre := g.Chance(0.35) && !forced
 			before := 0
 			for _, s := range sessions {
 				before += s.reqCount()
@@ -480,6 +630,11 @@ func systemCase(g *gen, dist map[string]int) (string, []map[string]string, error
 			obs = append(obs, obsNh(resp, notified, ownerName, sid, others, -1, -1))
 			dist[fmt.Sprintf("sys-nathole:pre=%v:resp=%d:notified=%v", pre, resp, notified)]++
 			dist["sign:"+kind]++
+			if forced && !notified {
+				fail("system:incumbent-unreachable-after-refused-duplicate",
+					"after a second session's registration of the same name was refused (registration race), a correctly signed NAT-hole request of an allowed user is refused by the live xtcp proxy",
+					fmt.Sprintf("%s resp=%d", opText, resp))
+			}
 			if notified {
 				ops = append(ops, fmt.Sprintf("SSessionEnd %s", hx.HxS(sid)))
 				obs = append(obs, obsZ(0))
@@ -670,5 +825,17 @@ func systemCases(cfg *hx.RunCfg, g *gen, n int, dist map[string]int, add func(st
 		}
 		add(c, f)
 	}
-	return realTransparency(g, dist, add)
+	if err := realTransparency(g, dist, add); err != nil {
+		return err
+	}
+	if err := cfgCases(cfg, g, dist, add); err != nil {
+		return fmt.Errorf("config cases: %v", err)
+	}
+	if err := xtcpCases(g, dist, add); err != nil {
+		return fmt.Errorf("xtcp cases: %v", err)
+	}
+	if err := firstCases(dist, add); err != nil {
+		return fmt.Errorf("speaks-first cases: %v", err)
+	}
+	return nil
 }
